@@ -30,8 +30,8 @@ int main (void) {
 		else if (!strcmp (op, "rem") && n == 2) { p_hash_table_remove (t, (pconstpointer) (uintptr_t) a); puts ("ok"); }
 		else if (!strcmp (op, "get") && n == 2) {
 			ppointer r = p_hash_table_lookup (t, (pconstpointer) (uintptr_t) a);
-			/* the documented not-found marker; a stored all-ones value is indistinguishable by API
-			 * and the generator never stores it */
+			/* the documented not-found marker; a stored all-ones value is indistinguishable by this call
+			 * (the model driver prints it as `nf` too); keys / vals / lbv tell the two apart */
 			if (r == (ppointer) (-1)) puts ("nf"); else printf ("%" PRIu64 "\n", (uint64_t) (uintptr_t) r);
 		}
 		else if (!strcmp (op, "keys") && n == 1) { PList *k = p_hash_table_keys (t); print_list (k); p_list_free (k); }
